@@ -24,8 +24,9 @@ pub fn fmt_li(li: &LanguageIdentifier) -> String {
         format!("[{}]", vs.join(","))
     };
     format!(
-        "{} {} {} {} {}",
+        "{}{} {} {} {} {}",
         li.language.as_str(),
+        if li.language.is_empty() { "!" } else { "" },
         li.script.map(|s| s.as_str().to_string()).unwrap_or_else(|| "-".into()),
         li.region.map(|s| s.as_str().to_string()).unwrap_or_else(|| "-".into()),
         v,
